@@ -37,7 +37,7 @@ impl PublishedCursor {
 pub(crate) struct PublishedCursorReader<'a>(&'a AtomicUsize);
 
 impl PublishedCursorReader<'_> {
-    #[cfg(test)]
+    #[cfg(any(test, grevm_verif))]
     pub(crate) fn new(cursor: &AtomicUsize) -> PublishedCursorReader<'_> {
         PublishedCursorReader(cursor)
     }
@@ -80,14 +80,17 @@ impl RewindableAtomic for AtomicUsize {
 #[inline]
 fn claim_before(cursor: &impl RewindableAtomic, limit: usize) -> Option<usize> {
     loop {
+        vpoint!(CURSOR, "VC_Load");
         let current = cursor.load(Ordering::Acquire);
+        vemit!(CURSOR, "VC_Load", "cur" => current, "limit" => limit);
         if current >= limit {
             return None;
         }
-        if cursor
-            .compare_exchange_weak(current, current + 1, Ordering::AcqRel, Ordering::Acquire)
-            .is_ok()
-        {
+        vpoint!(CURSOR, "VC_Cas");
+        let cas =
+            cursor.compare_exchange_weak(current, current + 1, Ordering::AcqRel, Ordering::Acquire);
+        vemit!(CURSOR, "VC_Cas", "cur" => current, "ok" => cas.is_ok());
+        if cas.is_ok() {
             return Some(current);
         }
     }
@@ -116,7 +119,10 @@ impl RewindableCursor {
 
     #[inline]
     pub(super) fn rewind(&self, value: usize) -> usize {
-        self.0.fetch_min(value, Ordering::AcqRel)
+        vpoint!(CURSOR, "VC_Rewind");
+        let previous = self.0.fetch_min(value, Ordering::AcqRel);
+        vemit!(CURSOR, "VC_Rewind", "to" => value, "prev" => previous);
+        previous
     }
 }
 
